@@ -9,7 +9,7 @@ structure St where
   window : Nat := 5
   limit : Nat := 1000000
   maxSkew : Nat := 30000000000
-  nilCertGuard : Bool := false
+  nilCertGuard : Bool := true
   checksMessage : Bool := false
   /-- forged certificates (chunk id ↦ expiry in the signed reference) obtained from the validators -/
   forged : List (Nat × Nat) := []
